@@ -25,6 +25,9 @@ def main(argv):
         print("unknown tier", tier)
         return 2
     cmd = args[0]
+    import faulthandler
+    import signal
+    faulthandler.register(signal.SIGUSR1, all_threads=True)  # kill -USR1 <pid>: where is the check right now
     common.scratch()  # the first process owns the scratch directory; pool workers use sub-directories of it
     try:
         if cmd == "selftest":
